@@ -241,6 +241,24 @@ func (lv *LeafVariants) GetHighestPrecedence(onlyNewOrUpdated bool, includeDefau
 	return nil
 }
 
+// GetHighestPrecedenceRemaining returns the LeafEntry with the highest priority among the entries
+// that are not marked for deletion, so the value that is in effect when the transaction made it through.
+// nil if no such entry exists.
+func (lv *LeafVariants) GetHighestPrecedenceRemaining() *LeafEntry {
+	lv.lesMutex.RLock()
+	defer lv.lesMutex.RUnlock()
+	var highest *LeafEntry
+	for _, e := range lv.les {
+		if e.GetDeleteFlag() {
+			continue
+		}
+		if highest == nil || e.Priority() < highest.Priority() {
+			highest = e
+		}
+	}
+	return highest
+}
+
 func (lv *LeafVariants) highestIsUnequalRunning(highest *LeafEntry) bool {
 	// if highes is already running or even default, return false
 	if highest.Update.Owner() == RunningIntentName {
